@@ -186,10 +186,6 @@ def run(ctx) -> list[Inst]:
             d = diff_tables(table, ref_table)
         except Exception as e:      # rendering only
             d = f'tables differ (rendering failed: {e})'
-        if not extra and _new_atoms(table, ref_table):
-            # tests the specification never makes (an EXISTS over a computed tuple instead of two separate tests ..):
-            # the function was restructured beyond what the canonical form absorbs - not decided
-            extra = ['<tests the reference does not make: restructured>']
         if extra:
             insts.append(Inst(RULE, fname, construct, 'unproven',
                               msg=f'table differs but calls functions / reads globals the reference does not know {extra}: {d[:300]}',
@@ -259,6 +255,10 @@ def _tier_b(ctx) -> list[Inst]:
         # tier B decides only NEAR the reference: the same tests (essential atoms at every nesting level, up to the
         # constants and the strictness of comparisons inside them) with a different outcome somewhere.  A table over other tests is a restructured function - which this comparison
         # cannot tell from a changed one: unproven.
+        if not extra and k2 - k1:
+            # the REFERENCE leans on constructs the table language only names (state carried through a loop ..) and the
+            # code does without them: the two were not brought to a common form
+            extra = [f'<reference uses uninterpreted construct: {x}>' for x in sorted(k2 - k1)]
         if not extra:
             # term kinds / method names the reference never uses: the values are computed another way (restructured)
             newk = sorted(_kinds(table, set()) - _kinds(ref_table, set()))
@@ -441,6 +441,8 @@ def _all_atoms(t, acc):
     if isinstance(t, tuple):
         if t and t[0] == 'table':
             acc.append(tuple(t[1]))
+        if t and t[0] == 'ite' and len(t) == 4:
+            acc.append((t[1],))         # the test of a conditional value is a test too
         for x in t:
             _all_atoms(x, acc)
     return acc
@@ -486,4 +488,6 @@ def _new_atoms(table, ref_table) -> bool:
             for a in group:
                 out.add(repr(_skeleton(a)))
         return out
-    return bool(flat(table) - flat(ref_table))
+    # a violation is claimed only over the very same tests: a test dropped because the grammar / an invariant makes it
+    # redundant cannot be told from a guard that was lost
+    return flat(table) != flat(ref_table)
